@@ -2,7 +2,7 @@
 Props/C07.lean — property C07 "IPSet algebra and queries agree with plain set theory on
 addresses".  Property theorems only; lemmas in Lemmas/IPSetL1..L5.
 -/
-import NetaddrVerif.Lemmas.IPSetL5
+import NetaddrVerif.Lemmas.IPSetL7
 namespace NV.C07
 open NV NV.IPSet
 
@@ -11,6 +11,19 @@ open NV NV.IPSet
 theorem contains_iff (s : St) (hs : Inv s) (n : Net) (hn : n.WF) :
     contains s n = true ↔ ∀ a, n.first ≤ a → a ≤ n.last → denS s n.ver a :=
   IPSet.contains_iff s hs n hn
+
+/-- `issubset` / `<=`: every address of `s` is in `t` -/
+theorem issubset_iff (s t : St) (hs : Inv s) (ht : Inv t) :
+    issubset s t = true ↔ ∀ ver a, denS s ver a → denS t ver a := IPSet.issubset_iff s t hs ht
+
+/-- `issuperset` / `>=` -/
+theorem issuperset_iff (s t : St) (hs : Inv s) (ht : Inv t) :
+    issuperset s t = true ↔ ∀ ver a, denS t ver a → denS s ver a := IPSet.issuperset_iff s t hs ht
+
+/-- iteration order: `iter_cidrs()` (hence `__iter__`, `repr`) ascends by address with IPv4
+    before IPv6 (`lin` places the IPv6 space after the IPv4 space) -/
+theorem iter_order (s : St) (hs : Inv s) :
+    ((iterCidrs s).map lin).Pairwise (fun b c => b.base < c.base) := (canon_shown s hs).sorted
 
 example : contains [⟨4, 0x0a000000, 24⟩] ⟨4, 0x0a000005, 32⟩ = true := by decide +kernel
 example : contains [⟨4, 0x0a000000, 24⟩] ⟨4, 0x0a000005, 23⟩ = false := by decide +kernel
